@@ -12,6 +12,7 @@ mod c10;
 mod c12;
 mod c13;
 mod c14;
+mod c15;
 mod c16;
 mod c17;
 mod driver;
@@ -83,6 +84,7 @@ fn main() {
                 eprintln!("ORACLE SELF-TEST FAILED: {}", e);
                 std::process::exit(2);
             }
+            procs::PORT_SHARD.store(ctx.shard as u32, std::sync::atomic::Ordering::Relaxed);
             inproc::install_panic_capture();
             let mut o = out::Out::new();
             match prop.as_str() {
@@ -95,6 +97,7 @@ fn main() {
                 "C10" => c10::run_c10(&ctx, &mut o),
                 "C11" => c10::run_c11(&ctx, &mut o),
                 "C12" => c12::run(&ctx, &mut o),
+                "C15" => c15::run(&ctx, &mut o),
                 "C16" => c16::run(&ctx, &mut o),
                 "C17" => c17::run(&ctx, &mut o),
                 "C14" => c14::run(&ctx, &mut o),
